@@ -197,7 +197,27 @@ pub fn check_case(case: &C07Case) -> (Vec<Violation>, Counters, bool, Option<Wri
     Some(p) => plans.push(p.clone()),
     None => {
       let kinds = [FailKind::StorageFull, FailKind::BrokenPipe, FailKind::PermissionDenied, FailKind::Other];
-      for k in 0..=len + 1 {
+      // Small trees: every offset. Large trees (the 3 % "big leaf" swarm mode,
+      // 8-20 KiB: beyond the 8 KiB buffer size of std's BufWriter / typical
+      // chunked copies): the offsets around every power-of-two boundary, the
+      // ends, and a seeded sample.
+      let offsets: Vec<u64> = if len <= 600 {
+        (0..=len + 1).collect()
+      } else {
+        let mut v: Vec<u64> = vec![0, 1, 2, len - 1, len, len + 1];
+        let mut b = 512u64;
+        while b < len + 2 {
+          v.extend([b - 1, b, b + 1]);
+          b *= 2;
+        }
+        let mut x = crate::rng::Rng::new(len ^ case.max_chunk as u64);
+        v.extend((0..24).map(|_| x.below(len)));
+        v.sort_unstable();
+        v.dedup();
+        counters.inc("population:big_trees_sampled_offsets");
+        v
+      };
+      for k in offsets {
         let fail_kind = kinds[(k % 4) as usize].clone();
         // whole-buffer writes
         plans.push(WriterPlan {
@@ -285,7 +305,29 @@ impl C07 {
     cfg.max_text = *rng.pick(&[6usize, 12, 24]);
     let mut ids = Ids::new();
     let mut budget = cfg.max_nodes;
-    let tree = gen_tree(&mut rng, &cfg, &mut ids, cfg.max_depth, &mut budget);
+    let mut tree = gen_tree(&mut rng, &cfg, &mut ids, cfg.max_depth, &mut budget);
+    if rng.chance(30) {
+      // big-leaf swarm mode: one child of 8-20 KiB
+      let unit = crate::gen::gen_text(&mut rng, 12, ascii) + "ab\n";
+      let target = *rng.pick(&[8190usize, 8192, 8193, 16384, 16385, 20000]);
+      let mut text = String::new();
+      while text.len() + unit.len() <= target {
+        text.push_str(&unit);
+      }
+      while text.len() < target {
+        text.push('x');
+      }
+      let big = if rng.chance(500) {
+        TreeSpec::Raw { text }
+      } else {
+        TreeSpec::Original { text, name: "big.js".into() }
+      };
+      tree = match rng.below(3) {
+        0 => big,
+        1 => TreeSpec::Concat { children: vec![tree, big], how: crate::spec::ConcatHow::New },
+        _ => TreeSpec::Concat { children: vec![big, tree], how: crate::spec::ConcatHow::AddLater },
+      };
+    }
     let n_mixed = rng.usize_below(4);
     let mixed = (0..n_mixed).map(|_| crate::conc::gen_writer_plan(&mut rng)).collect();
     C07Case {
@@ -383,7 +425,7 @@ impl Property for C07 {
     (serde_json::to_value(&cur).unwrap(), from)
   }
   fn rule(&self) -> String {
-    "case = one source tree over all eight source types (both binary leaf types with invalid UTF-8, ConcatSource built by new / add-later / nested typed, ReplaceSource, CachedSource, user-defined and re-boxed children) drawn from splitmix(VERIF_SEED, run index). Per tree: the four views are compared with a structural content model, then to_writer is executed once per failure offset k in 0..=len+1 in five modes (whole-buffer, short writes, short writes + EINTR bursts, a transient failure after which the sink accepts again, Ok(0) at k) plus fragmentation-only and seeded mixed plans; exhaustive in k per tree, trees sampled. distinct_nontrivial = distinct composite trees with non-empty content.".into()
+    "case = one source tree over all eight source types (both binary leaf types with invalid UTF-8, ConcatSource built by new / add-later / nested typed, ReplaceSource, CachedSource, user-defined and re-boxed children) drawn from splitmix(VERIF_SEED, run index). Per tree: the four views are compared with a structural content model, then to_writer is executed once per failure offset k in 0..=len+1 in five modes (whole-buffer, short writes, short writes + EINTR bursts, a transient failure after which the sink accepts again, Ok(0) at k) plus fragmentation-only and seeded mixed plans; exhaustive in k per tree for trees up to 600 bytes (3 % of the trees carry an 8-20 KiB leaf and use the offsets around every power-of-two boundary plus a seeded sample), trees sampled. distinct_nontrivial = distinct composite trees with non-empty content.".into()
   }
   fn assumptions(&self) -> Vec<String> {
     vec![
